@@ -104,3 +104,12 @@ theorem C17_leaf_count_order_independent (E : Env) (hsym : ∀ x y, y ∈ E.nbrs
     (P34.leavesOf (run E o₁)).length = (P34.leavesOf (run E o₂)).length :=
   P34.leaf_count_order_independent E hsym hno o₁ o₂ hperm hnd hs₁ hs₂
 end Ties
+
+/-! ## the padding cell -/
+
+/-- **C17 / C03 (the padded border is inert).** Neighbour coordinates −1 and `n` on a non-periodic axis land on the
+extra cell that `compute` allocates and never writes. In the model: neighbours that are never processed contribute
+nothing — the run with them in the adjacency lists equals the run with them removed, for every environment and order. -/
+theorem C17_padding_cells_inert (E : Env) (pad : Nat → Bool) (order : List Nat) (hnd : order.Nodup)
+    (hpad : ∀ q, pad q = true → q ∉ order) : run (P36.dropCells E pad) order = run E order :=
+  P36.run_dropCells E pad order hnd hpad
